@@ -90,7 +90,7 @@ func (s *Sandbox) RunEnv(env []string, args ...string) Result { return s.RunIn("
 
 // RunIn is RunEnv with the given text piped to the command's standard input.
 func (s *Sandbox) RunIn(stdin string, env []string, args ...string) Result {
-	ctx, cancel := context.WithTimeout(context.Background(), 120*time.Second)
+	ctx, cancel := context.WithTimeout(context.Background(), 300*time.Second)
 	defer cancel()
 	cmd := exec.CommandContext(ctx, Bin(), args...)
 	cmd.Dir = s.Dir
